@@ -30,6 +30,8 @@ func checkC09(c *Ctx) {
 	c.Rule("C09-R5", "every control string the screen emits, for every ECMA-48-family database entry, tokenizes as complete control sequences with numeric parameters and no residue")
 	c.Rule("C09-R6", "integer arguments of TParm calls in the screen are provably non-negative")
 	c.Rule("C09-R7", "go-runewidth's EastAsianWidth is switched off at init unless RUNEWIDTH_EASTASIAN is set; no other store to that condition")
+	c.Rule("C09-R10", "the colour strings LookupTerminfo synthesises for NAME-256color / NAME-truecolor are well-formed and denote non-negative SGR parameters for every index")
+	c.Expect("C09-R10", 8)
 	c.Rule("C09-R9", "encoder output is appended to the cell payload only where its first byte was tested against SUB (0x1a), for every encoder call in encodeRune (primary and combining runes alike)")
 	c.Expect("C09-R9", 1)
 	c.Rule("C09-R8", "TPuts removes every terminated padding specification with exactly its delimiters (so that no $<…> residue reaches the terminal from the database strings, which the emission check strips the same way)")
@@ -65,6 +67,7 @@ func checkC09(c *Ctx) {
 	c09Runewidth(c, p)
 	tputsSegmentsRule(c, p, "C09-R8")
 	c09Sub(c, p)
+	c.asRule("C14-R5", "C09-R10", func() { c14Lookup(c, p) })
 }
 
 func c09Encapsulation(c *Ctx, p *Prog) {
